@@ -7,7 +7,7 @@
  5 run corpus + generated cases: implementation || model, diff, implementation-side oracle
  6 evidence, verdict
 """
-import fcntl, hashlib, importlib, json, os, random, re, shutil, subprocess, sys, time, traceback
+import fcntl, hashlib, importlib, json, os, random, re, shutil, subprocess, sys, threading, time, traceback
 from concurrent.futures import ThreadPoolExecutor
 
 VERIF = os.path.dirname(os.path.abspath(__file__))
@@ -239,9 +239,50 @@ def audit_axioms(prop_id, imports, theorems):
 # ------------------------------------------------------------------------------------------------
 # running cases
 
-def run_lines(exe, lines, env_extra=None, timeout=None):
-    """feed lines, one output line per input line.  A crash (sanitizer abort, signal) is attributed to
-    the case after the last complete output line; that case gets 'CRASH …' and the run resumes."""
+def _run_proc(exe, data, env, total, stall):
+    """run one harness / driver process on `data`; kill it when it has written nothing for `stall` seconds (a hang: every
+    answer line is flushed as soon as it is computed) or after `total` seconds.  returns (rc, stdout, stderr); rc -999 = killed"""
+    rd = os.path.join(CACHE, 'run')
+    os.makedirs(rd, exist_ok=True)
+    tag = f'{os.getpid()}.{threading.get_ident()}'
+    fi, fo, fe = (os.path.join(rd, f'{k}.{tag}') for k in ('in', 'out', 'err'))
+    with open(fi, 'wb') as f:
+        f.write(data)
+    killed = False
+    with open(fi, 'rb') as i, open(fo, 'wb') as o, open(fe, 'wb') as e:
+        p = subprocess.Popen([exe], stdin=i, stdout=o, stderr=e, env=env)
+        t0 = last = time.time()
+        size = 0
+        while True:
+            try:
+                p.wait(timeout=0.25)
+                break
+            except subprocess.TimeoutExpired:
+                pass
+            now = time.time()
+            sz = os.path.getsize(fo)
+            if sz != size:
+                size, last = sz, now
+            if now - last > stall or now - t0 > total:
+                p.kill()
+                p.wait()
+                killed = True
+                break
+    so = open(fo, 'rb').read()
+    se = open(fe, 'rb').read()
+    for f in (fi, fo, fe):
+        try:
+            os.remove(f)
+        except OSError:
+            pass
+    return (-999 if killed else p.returncode), so, se + (b'\nTIMEOUT' if killed else b'')
+
+
+def run_lines(exe, lines, env_extra=None, timeout=None, stall=45, max_crashes=8):
+    """feed lines, one output line per input line.  A crash (sanitizer abort, signal) or a hang is attributed to
+    the case after the last complete output line; that case gets 'CRASH …' and the run resumes in a fresh process.  After
+    `max_crashes` of them the call returns what it has (the remaining lines are not evaluated): a tree on which every
+    other case hangs or aborts has been shown broken long before, and the check must end."""
     outs = []
     crashes = []
     env = dict(os.environ)
@@ -251,14 +292,11 @@ def run_lines(exe, lines, env_extra=None, timeout=None):
     i = 0
     n = len(lines)
     while i < n:
+        if len(crashes) >= max_crashes:
+            break
         chunk = lines[i:]
         data = ('\n'.join(chunk) + '\n').encode()
-        try:
-            p = subprocess.run([exe], input=data, stdout=subprocess.PIPE, stderr=subprocess.PIPE, env=env,
-                               timeout=timeout or max(90, 0.02 * len(chunk)))
-            rc, so, se = p.returncode, p.stdout, p.stderr
-        except subprocess.TimeoutExpired as e:
-            rc, so, se = -999, e.stdout or b'', (e.stderr or b'') + b'\nTIMEOUT'
+        rc, so, se = _run_proc(exe, data, env, timeout or max(90, 0.02 * len(chunk)), stall)
         # the piece after the last newline is a partial line (or empty): drop it
         complete = so.decode(errors='replace').split('\n')[:-1]
         complete = complete[:len(chunk)]
